@@ -12,7 +12,7 @@ package connected
 //@   requires g != nil && ns != nil && es != nil
 //@   requires forall i int, j int :: 0 <= i && i < j && j < len(g.Nodes) ==> g.Nodes[i] != g.Nodes[j]
 //@   requires forall i int, j int :: 0 <= i && i < j && j < len(g.Edges) ==> g.Edges[i] != g.Edges[j]
-//@   modifies DGraph.Nodes, DGraph.Edges, DGraph.Layers, Elems[*Node], alloc
+//@   modifies DGraph.Nodes, DGraph.Edges, DGraph.Layers, Elems[*Node], Elems[*Edge], alloc
 //@   ensures[fresh] result != nil && !old(allocated(result))
 //@   ensures[nodes_selected] forall k int :: 0 <= k && k < len(result.Nodes) ==> (exists i int :: 0 <= i && i < len(g.Nodes) && result.Nodes[k] == g.Nodes[i] && ns[g.Nodes[i]])
 //@   ensures[nodes_complete] forall i int :: 0 <= i && i < len(g.Nodes) && ns[g.Nodes[i]] ==> (exists k int :: 0 <= k && k < len(result.Nodes) && result.Nodes[k] == g.Nodes[i])
@@ -36,7 +36,7 @@ package connected
 //@     invariant sub.Edges == nil
 //@   loop range(g.Edges)#1 index b
 //@     invariant sub != nil && sub != g && !old(allocated(now(sub))) && g.Nodes == old(g.Nodes) && g.Edges == old(g.Edges) && sub.Nodes == loopold(sub.Nodes)
-//@     invariant[frame] forall t []*Node, j int :: loopold(allocatedArrId(arr(t))) ==> t[j] == loopold(t[j])
+//@     invariant[frame] forall t []*Edge, j int :: loopold(allocatedArrId(arr(t))) ==> t[j] == loopold(t[j])
 //@     invariant sub.Edges == nil || (allocatedArr(sub.Edges) && !loopold(allocatedArrId(now(arr(sub.Edges)))))
 //@     invariant forall k int :: 0 <= k && k < len(sub.Edges) ==> (exists i int :: 0 <= i && i < b && sub.Edges[k] == g.Edges[i] && es[g.Edges[i]])
 //@     invariant forall i int :: 0 <= i && i < b && es[g.Edges[i]] ==> (exists k int :: 0 <= k && k < len(sub.Edges) && sub.Edges[k] == g.Edges[i])
